@@ -94,7 +94,8 @@ Inductive pev :=
 | PPort (p : Z)           (* port message *)
 | PExport                 (* the user asks for the magnet link *)
 | PMeta (p : Z)           (* peer p delivers the complete metadata (magnet links only) *)
-| PProbe (src p : Z).     (* the address of a listener we own arrives by src (5: in a PEX message from p) *)
+| PProbe (src p : Z)      (* the address of a listener we own arrives by src (5: in a PEX message from p) *)
+| PAnnounce.              (* the user asks for an announce *)
 
 (* the step: new state and the event's own outputs *)
 Definition pstep (fixed : bool) (c : pcfg) (s : pst) (e : pev) : pst * list Z :=
@@ -131,6 +132,7 @@ Definition pstep (fixed : bool) (c : pcfg) (s : pst) (e : pev) : pst * list Z :=
       else if (5 <=? src) && (src <=? 8) then
         (add_addrs fixed c s src 1, [b2z (accepts fixed c s src && c_dial c)])     (* dialled *)
       else (s, [0])
+  | PAnnounce => (s, [])
   end.
 
 Definition pex_flags (s : pst) (P : nat) : list Z :=
@@ -153,6 +155,7 @@ Definition dec_pev (l : list Z) : option (pev * list Z) :=
   | 10 :: r => Some (PExport, r)
   | 11 :: p :: r => Some (PMeta p, r)
   | 12 :: src :: p :: r => Some (PProbe src p, r)
+  | 13 :: r => Some (PAnnounce, r)
   | _ => None
   end.
 
